@@ -585,7 +585,7 @@ int main(int argc, char** argv)
                 [&]() {
                     const int p = *rc::gen::resize(100, rc::gen::inRange<int>(0, n));
                     const int kind = *rc::gen::resize(100, rc::gen::inRange<int>(0, 4));
-                    const uint64_t s = *rc::gen::arbitrary<uint64_t>();
+                    const uint64_t s = *rc::gen::resize(100, rc::gen::arbitrary<uint64_t>());
                     RCase c;
                     c.op = it.op;
                     c.type = it.t;
